@@ -59,6 +59,46 @@ def load(want_regex):
     return _FUNCS[key]
 
 
+_INDEX = {}
+
+
+def full_index():
+    """names of every function (and promoted constant) in the current tree's MIR, without parsing the bodies"""
+    path = emit_mir()
+    if path not in _INDEX:
+        names = []
+        with open(path) as f:
+            for line in f:
+                if line.startswith("fn "):
+                    m = mir.HDR.match(line.rstrip("\n"))
+                    if m:
+                        names.append((m.group(1), m.group(3)))
+        _INDEX[path] = names
+    return _INDEX[path]
+
+
+def lazy_lookup(funcs, callee, strip_generics):
+    """a callee that is not among the loaded bodies: find it in the full MIR, load it together with its closures and promoted
+    constants, return its name (None if not found or ambiguous). Free functions are printed with their bare name; derived
+    trait methods (`<T as Default>::default`) are matched by the impl method's return type."""
+    idx = full_index()
+    tf = strip_generics(callee)
+    cands = [n for n, _ in idx if n == tf or n.endswith("::" + tf) or tf.endswith("::" + n)]
+    m = re.match(r"^<(.+) as (.+?)>::(\w+)$", tf)
+    if not cands and m and m.group(3) == "default":
+        short = m.group(1).split("::")[-1].split("<")[0]
+        cands = [n for n, ret in idx if re.search(r"<impl at [^>]*>::default$", n) and ret.split("::")[-1].split("<")[0] == short]
+    cands = sorted(set(cands))
+    if len(cands) != 1:
+        return None
+    name = cands[0]
+    if name not in funcs:
+        pre = re.escape(name)
+        rx = re.compile(r"^(const )?%s($|::promoted|::\{closure)" % pre)
+        funcs.update(mir.parse_file(emit_mir(), want=lambda n: rx.search(n) is not None))
+    return name if name in funcs else None
+
+
 def body_hash(fn):
     h = hashlib.sha256()
     for n in sorted(fn.blocks):
@@ -705,7 +745,7 @@ def k_fold():
         d = z3.BitVec(f"{tag}_lit", 64)
         pay = {LV.index("Integer"): {0: SInt(z3.BitVec(f"{tag}_int", 64), 64, True)}, LV.index("Boolean"): {0: SBool(z3.Bool(f"{tag}_bool"))},
                LV.index("Float"): {0: SOpaque("f64", False)}, LV.index("String"): {0: SOpaque("string", False)}}
-        return SEnum("Literal", d, pay), z3.Or(*[d == LV.index(v) for v in ("Null", "Integer", "Boolean", "String")])
+        return SEnum("Literal", d, pay), z3.Or(*[d == LV.index(v) for v in ("Null", "Integer", "Float", "Boolean", "String")])
 
     def arg(tag):
         l, c = lit(tag)
@@ -755,8 +795,11 @@ def k_fold():
         dr = z3.BitVecVal(r.disc, 64) if isinstance(r.disc, int) else r.disc
         li, ri = l.pay[LV.index("Integer")][0].t, r.pay[LV.index("Integer")][0].t
         lb, rb = l.pay[LV.index("Boolean")][0].t, r.pay[LV.index("Boolean")][0].t
+        # f64 payloads are opaque to the interpreter; the derived PartialEq compares them, so they get a value here
+        # (reals: NaN cannot be written as a literal)
+        lf, rf = z3.Real("a0_float"), z3.Real("a1_float")
         same = z3.And(dl == dr, z3.If(dl == LV.index("Null"), z3.BoolVal(True), z3.If(dl == LV.index("Integer"), li == ri,
-                                     z3.If(dl == LV.index("Boolean"), lb == rb, str_eq))))
+                                     z3.If(dl == LV.index("Boolean"), lb == rb, z3.If(dl == LV.index("Float"), lf == rf, str_eq)))))
         return SBool(z3.Not(same) if negate else same)
 
     def stub_neg(I, st, a):
